@@ -1,3 +1,4 @@
+# Printed DIFFERENT on /repo before 79421ab (fixes/C12-4.diff); must print "same same" since.
 import sys
 sys.path.insert(0, '/repo/src')
 import classy_blocks as cb
